@@ -23,6 +23,7 @@ Theorem C08_invariant :
   forall c script, start_raises c = false -> Inv c (fst (run_events c (advance c (init c)) script)).
 Proof. exact invariant_holds. Qed.
 
+(* (definitional: a counting fact about the three-element type [who]) *)
 Theorem C08_join_list_bounded : forall l : list who, NoDup l -> List.length l <= 3.
 Proof. exact nodup_who_length. Qed.
 
@@ -87,6 +88,14 @@ Theorem C08_run_meets_spec_partial :
   forall c script, guard08 c script = true -> C08Spec.spec_ok c script (observe (run_sm c script)) = true.
 Proof. exact run_meets_spec08. Qed.
 
+(** The F-C08d region narrowed to its one conjunct: with only F-C08a/b/c excluded,
+    everything the spec demands holds except "the child has been reaped" (the spec
+    is met by the observation with that one field forced to true). *)
+Theorem C08_run_meets_spec_upto_reaped_partial :
+  forall c script, guard08_narrow c script = true ->
+    C08Spec.spec_ok c script (with_reaped (observe (run_sm c script))) = true.
+Proof. exact run_meets_spec08_upto_reaped. Qed.
+
 (** the outcome is one of the documented ones unless a pty meets an interrupt
     right after the reaping poll (F-C08b) *)
 Theorem C08_outcome_documented_partial :
@@ -109,6 +118,23 @@ Proof. exact reaped_general. Qed.
 Theorem C08_run_meets_spec_bounded_3 :
   sweep ok08 (configs true) (scripts_upto alphabet08 3) = true.
 Proof. exact sweep08_3. Qed.
+
+(** Tie to the source text (Generated/Tables.v is rewritten from invoke/runners.py
+    on every run): [Runner._thread_join_timeout] is, statement for statement, what
+    [RunnerSM.join_bounded] was written from -- no timeout for the stdin worker,
+    1 s iff the out/err sibling is dead.  [None]: shape not recognised by the
+    translator (behavioural correspondence only). *)
+From InvokeVerif Require Generated.Tables.
+Theorem C08_join_timeout_matches_source :
+  match Generated.Tables.join_timeout_src with
+  | Some l => l = ["if target == self.handle_stdin: return None";
+                   "opposite = self.handle_stderr";
+                   "if target == self.handle_stderr: opposite = self.handle_stdout";
+                   "if opposite in self.threads and self.threads[opposite].is_dead: return 1";
+                   "return None"]%string
+  | None => True
+  end.
+Proof. vm_compute. first [reflexivity | exact I]. Qed.
 
 (** Non-vacuity *)
 Example C08_ex_terminates :     (* output, exit 3, timer after the exit, EOFs: ends, clean *)
